@@ -49,6 +49,9 @@ def check(ctx):
     ctx.rule("R6", "Model.update sweeps self._sorted_nodes on every path, calling "
                    "node.update() iff node.outdated (targeted: and node in the recursive "
                    "inputs of *all* names).")
+    ctx.rule("R8", "who-may-write: the cache fields _value / _outdated are written only by "
+                   "the protocol sites, and node.update() is called only by the sweeps "
+                   "(frozen table of sites, each with a reason).")
     ctx.rule("R7", "state getter/setter save and restore value and flag of every node.")
     ctx.trust(LIB_FACTS["toposort"])
     ctx.undecided("value equality with a from-scratch recomputation for arbitrary user "
@@ -336,6 +339,79 @@ def check(ctx):
                           "node itself included", ok_r,
            detail=short(rr.ret() or ()), stmt="recursive inputs closure")
 
+    # ------------------------------------------------------------------ R8
+    # who may write the cache fields / call node.update(): only the protocol sites
+    node_quals = {ci.qualname for ci in classes}
+    WRITE_OK = {
+        # own-class protocol sites (self._value / self._outdated)
+        "__init__", "update", "state", "value", "flag_outdated",
+    }
+    FOREIGN_OK = {
+        "liesel.goose.interface.LieselInterface.update_state":
+            "clears the flags right after overwriting the whole state (C03.R3)",
+        "liesel.model.goose.GooseModel.update_state": "same (deprecated alias)",
+        "liesel.model.goose.finite_discrete_gibbs_kernel.<locals>.transition_fn":
+            "same, on the private model copy (C13.R2)",
+    }
+    UPDATE_CALLERS_OK = {
+        "liesel.model.model.Model.update": "the topological sweep",
+        "liesel.model.model.Model.__init__": "the initial sweep in sorted order",
+        "liesel.model.nodes.Calc.__init__": "update_on_init of a node outside any model",
+        "liesel.model.nodes.Var.update": "user API on a variable outside the sweep",
+    }
+    n_sites = 0
+    for q, fi in sorted(repo.functions.items()):
+        if not fi.module.name.startswith(("liesel.model", "liesel.goose")) \
+                or isinstance(fi.node, ast.Lambda):
+            continue
+        for x in ast.walk(fi.node):
+            if isinstance(x, (ast.FunctionDef, ast.Lambda)) and x is not fi.node:
+                continue
+        own_nodes = [x for x in _walk_own(fi.node)]
+        for x in own_nodes:
+            tgt = None
+            if isinstance(x, ast.Assign):
+                tgt = [t for t in x.targets]
+            elif isinstance(x, (ast.AugAssign, ast.AnnAssign)):
+                tgt = [x.target]
+            for t in tgt or []:
+                if isinstance(t, ast.Attribute) and t.attr in ("_value", "_outdated"):
+                    n_sites += 1
+                    on_self = isinstance(t.value, ast.Name) and t.value.id == "self"
+                    if on_self:
+                        okw = (fi.cls is not None and fi.cls.qualname in node_quals
+                               and fi.name in WRITE_OK)
+                        why = "a node class's own protocol method"
+                    else:
+                        okw = fi.qualname in FOREIGN_OK
+                        why = "a tabled foreign writer"
+                    ctx.ob("C01.R8", fi, f"the cache field {t.attr} is written only by the "
+                                         f"dirty-flag protocol sites ({why}); any other write "
+                                         f"bypasses flagging", okw,
+                           detail=f"`{ast.unparse(x)[:80]}` in {fi.qualname}", node=x,
+                           stmt=f"foreign cache write {ast.unparse(t)}", nontrivial=not okw)
+            if isinstance(x, ast.Call) and isinstance(x.func, ast.Attribute) \
+                    and x.func.attr == "update" and not x.args and not x.keywords:
+                recv = ast.unparse(x.func.value)
+                model_like = recv in ("self", "model", "self._model", "self.model", "gb") \
+                    and not (fi.cls is not None and fi.cls.qualname in node_quals
+                             and recv == "self")
+                if recv == "self" and fi.cls is not None and fi.cls.qualname == MODEL:
+                    model_like = True
+                if model_like:
+                    continue
+                if fi.cls is not None and fi.cls.name in ("GraphBuilder", "DistRegBuilder") \
+                        and recv == "self":
+                    continue
+                n_sites += 1
+                okc = fi.qualname in UPDATE_CALLERS_OK
+                ctx.ob("C01.R8", fi, "node.update() is called only by the sweep sites "
+                                     "(Model.update / Model.__init__ in topological order) "
+                                     "and the two tabled user-level entry points", okc,
+                       detail=f"`{ast.unparse(x)}` in {fi.qualname}", node=x,
+                       stmt=f"foreign node update {ast.unparse(x)}", nontrivial=not okc)
+    ctx.require_min("cache-field writes and node.update() call sites examined", n_sites, 15)
+
     # ------------------------------------------------------------------ R7
     ss = method(repo, base, "state", "setter", own=True)
     r1 = evaluate(repo, ss)
@@ -373,6 +449,17 @@ def check(ctx):
           and r4[2][1] == ("a", ("proj", ("iter", r4[3][0][1]), 1), "state")
           and not r4[3][0][2])
     ctx.ob("C01.R7", mg, "Model.state reads the state of every node", ok, detail=short(r4 or ()))
+
+
+def _walk_own(fnode):
+    """ast.walk without descending into nested function definitions."""
+    stack = list(ast.iter_child_nodes(fnode))
+    while stack:
+        x = stack.pop()
+        yield x
+        if isinstance(x, (ast.FunctionDef, ast.AsyncFunctionDef, ast.Lambda, ast.ClassDef)):
+            continue
+        stack.extend(ast.iter_child_nodes(x))
 
 
 def _atoms(cond):
